@@ -1,7 +1,15 @@
 (* C10 - clean_up frees exactly the empty in-range tables, once; translations unchanged.
-   About the abstract tree model (Paging/Tree.v, `prune`), tied to the three mapper
-   implementations by the correspondence check (the deallocation log is part of every answer). *)
-From X86 Require Import Paging.Tree Paging.TreeProofs.
+   Two layers.  (1) About the abstract tree model (Paging/Tree.v, `prune`): the exact set of
+   released tables for every range.  (2) About the slot-by-slot memory model of
+   MappedPageTable/OffsetPageTable (Paging/Mapped.v), PROVED for every range without any
+   address arithmetic (C10_memory_clean_up_is_safe_for_every_range): the memory afterwards
+   represents a tree with the same translations; the released frames are page-table frames of the
+   hierarchy, each released once, never the level-4 table or a huge-page frame; no frame is
+   requested; nothing outside the hierarchy is written.  Partial: that the memory model releases
+   EXACTLY the tables `prune` releases (which tables overlap the range), and everything about
+   RecursivePageTable's clean-up, is tied by the correspondence check (deallocation log of every
+   call, the oracle's own table bookkeeping), not proved. *)
+From X86 Require Import Paging.Mapped Paging.Tree Paging.TreeProofs Paging.Refine Paging.RefineClean.
 Require Import Permutation.
 Open Scope Z_scope.
 
@@ -41,3 +49,16 @@ Theorem C10_tables_outside_the_range_untouched : forall P ch i base span rs re s
   child (fst (prune_children P ch i base span rs re skip)) j = child ch j.
 Proof. exact prune_children_untouched. Qed.
 Print Assumptions C10_tables_outside_the_range_untouched.
+
+(* the memory model of clean_up_addr_range (clean_up is the full range), for EVERY rs, re *)
+Theorem C10_memory_clean_up_is_safe_for_every_range : forall s ch rs re s',
+  rep 4 s ch (root s) -> tframe (root s) -> sep s (root s) ch ->
+  clean_up_addr_range s rs re = Ok s' ->
+  exists ch' fr,
+    rep 4 s' ch' (root s') /\ sep s' (root s') ch' /\
+    (forall path, small path -> lookup ch' path = lookup ch path) /\
+    (exists lost, Permutation (lost ++ fr ++ frames_of ch') (frames_of ch)) /\
+    freed s' = rev fr ++ freed s /\ alloc s' = alloc s /\ nalloc s' = nalloc s /\
+    (forall a, 0 <= a -> ~ in_frames (root s :: frames_of ch) a -> rd s' a = rd s a).
+Proof. exact clean_up_addr_range_safe. Qed.
+Print Assumptions C10_memory_clean_up_is_safe_for_every_range.
